@@ -10,6 +10,7 @@ import (
 	"fmt"
 	"go/token"
 	"go/types"
+	"os"
 	"sort"
 	"strconv"
 	"strings"
@@ -58,6 +59,9 @@ func (c *caseRule) decide(x *Explorer, fr *Frame, op token.Token, l, r ssa.Value
 		return Unknown
 	}
 	lt, rt := x.TM.Of(fr, l), x.TM.Of(fr, r)
+	if os.Getenv("VERIF_DEBUG") == "pairs" {
+		fmt.Fprintf(os.Stderr, "decide %s in %s: %s ? %s\n", op, fr.Fn, lt.String(), rt.String())
+	}
 	for i, p := range c.pairs {
 		switch p.match(x, fr, lt, rt) {
 		case 1:
